@@ -163,3 +163,148 @@ def replay(rp):
         return 1
     print('not reproduced (schedule is explained on this tree)')
     return 0
+
+
+class ObjScenario:
+    """Generic SCHED scenario: every client owns one handle (Deque, Index,
+    ...) on the same directory; verdict = linearizability against a small
+    sequential reference given by ``apply``."""
+
+    busy_answers = {}
+    relax = False
+    timed_sleep = False
+
+    def __init__(self, programs, init, mode, label=''):
+        self.programs = programs
+        self.init = init
+        self.mode = mode
+        self.label = label
+        self.dir = None
+
+    # -- to override -------------------------------------------------------
+    def make(self, directory):
+        raise NotImplementedError
+
+    def close(self, obj):
+        obj.cache.close()
+
+    def do(self, obj, op):
+        raise NotImplementedError
+
+    def spec0(self):
+        raise NotImplementedError
+
+    def apply(self, spec, op):
+        raise NotImplementedError
+
+    def final_ok(self, spec):
+        return True
+
+    def dirs(self):
+        return [self.dir]
+
+    # ---------------------------------------------------------------------------
+    def describe(self):
+        return {'programs': [[list(op) for op in p] for p in self.programs],
+                'init': [list(op) for op in self.init], 'mode': self.mode,
+                'scenario': type(self).__name__}
+
+    def setup(self, ex):
+        self.dir = run.fresh_dir('s')
+        ENV.reset(self.dir)
+        ENV.set_client(0)
+        boot = self.make(self.dir)
+        self.spec_init = self.spec0()
+        for op in self.init:
+            self.do(boot, op)
+            self.apply(self.spec_init, op)
+        self.boot = boot
+        n = len(self.programs)
+        shared = self.make(self.dir) if self.mode == 'shared' else None
+        self.handles = {i + 1: (shared or self.make(self.dir))
+                        for i in range(n)}
+        self.objects = list({id(o): o for o in self.handles.values()}.values())
+
+    def perform(self, ex, c, op):
+        return self.do(self.handles[c.cid], op)
+
+    def client_exit(self, ex, c):
+        self.close(self.handles[c.cid])
+
+    def teardown(self):
+        for obj in getattr(self, 'objects', []) + [getattr(self, 'boot', None)]:
+            try:
+                if obj is not None:
+                    self.close(obj)
+            except Exception:
+                pass
+        if self.dir:
+            run.drop(self.dir)
+
+    def shared_key(self, ex):
+        return (tuple(Snapshot(d).canon() for d in self.dirs()),
+                tuple(tuple(tree(d)) for d in self.dirs()))
+
+    def check(self, ex):
+        ops = []
+        for c in ex.clients:
+            for i, (op, result, call, ret) in enumerate(c.results):
+                ops.append(Op(c.cid, i, op, result, call, ret))
+        self.mark(ops)
+        order = linearize(copy.deepcopy(self.spec_init), ops, self.final_ok,
+                          relax=False, apply=self.apply)
+        problems = []
+        if order is None:
+            problems.append(('not-linearizable',
+                             'no sequential order explains %r; final %r'
+                             % (ops, self.final_view())))
+        for d in self.dirs():
+            bad = Snapshot(d).audit()
+            if bad:
+                problems.append(('bookkeeping', '; '.join(bad[:3])))
+        return problems
+
+    def mark(self, ops):
+        pass
+
+    def final_view(self):
+        return None
+
+    def outcome(self, ex):
+        return repr([[repr(r[1])[:40] for r in c.results]
+                     for c in ex.clients])
+
+    def violation(self, ex, problems):
+        d = self.describe()
+        kinds = sorted({op[0] for p in self.programs for op in p})
+        return {
+            'signature': {'clause': problems[0][0], 'ops': '+'.join(kinds),
+                          'mode': self.mode, 'scenario': type(self).__name__},
+            'message': '%s: %s | schedule %r | %s' % (
+                problems[0][0], d['programs'], ex.trace,
+                '; '.join(p[1] for p in problems)[:700]),
+            'replay': {'engine': 'SCHED', 'module': self.replay_module,
+                       'describe': d, 'schedule': list(ex.trace),
+                       'steps': [[cid, repr(p)] for cid, p in ex.steps_log],
+                       'problems': [list(p) for p in problems]},
+        }
+
+    replay_module = 'scen'
+
+
+def replay_obj(cls, rp):
+    from . import sched
+    d = rp['describe']
+    sc = cls([list(p) for p in d['programs']], d['init'], d['mode'])
+    try:
+        ex = sched.Execution(sc, list(rp['schedule']), None, None, True).run()
+        for c in ex.clients:
+            print('client %d results: %r' % (c.cid, [r[:2] for r in c.results]))
+        problems = sc.check(ex)
+    finally:
+        sc.teardown()
+    if problems:
+        print('REPRODUCED: %r' % (problems,))
+        return 1
+    print('not reproduced (schedule is explained on this tree)')
+    return 0
